@@ -164,6 +164,36 @@ func c08DirectCalls() []*c08call {
 		oc.want = oc.direct()
 		out = append(out, oc)
 	}
+	// a call whose user callback panics two levels down (the caller recovers, as net/http does for a handler): the other calls go on
+	// as if it had never happened
+	panicSch := z.Struct(z.Schema{"address": z.Struct(z.Schema{"zip": z.String().TestFunc(func(v any, ctx z.Ctx) bool { panic("callback bug") }), "city": z.String()}), "lines": z.Slice(z.String().TestFunc(func(v any, ctx z.Ctx) bool {
+		if v.(string) == "boom" {
+			panic("callback bug")
+		}
+		return true
+	}))})
+	for _, where := range []string{"nested struct field", "slice element"} {
+		where := where
+		pc := &c08call{mode: ref.Parse, desc: "Parse whose TestFunc (" + where + ") panics; the caller recovers"}
+		pc.direct = func(opts ...z.ExecOption) (out string) {
+			defer func() {
+				if r := recover(); r != nil {
+					out = fmt.Sprint("recovered: ", r)
+				}
+			}()
+			var d struct {
+				Address struct{ Zip, City string }
+				Lines   []string
+			}
+			data := map[string]any{"address": map[string]any{"zip": "1", "city": "c"}, "lines": []any{"a"}}
+			if where == "slice element" {
+				data = map[string]any{"address": map[string]any{"city": "c"}, "lines": []any{"a", "b", "boom"}}
+			}
+			return fmt.Sprint(z.Issues.SanitizeMap(panicSch.Parse(data, &d, opts...)))
+		}
+		pc.want = pc.direct()
+		out = append(out, pc)
+	}
 	// messages in the language named by each call (i18n is installed for the whole round, see RunCase)
 	for _, lang := range []string{"es", "en", ""} {
 		lang := lang
